@@ -18,22 +18,108 @@ def boolSetters : List String :=
   ["SetDumpFileOn", "SetDumpStringOn", "SetErrorFileOn", "SetErrorOn", "SetErrorStringOn", "SetLogFileOn",
    "SetLogStringOn", "SetOutputFileOn", "SetOutputStringOn", "SetSelectedOutputFileOn", "SetSelectedOutputStringOn"]
 
-/-- functions documented to return a count, which is 0 for an invalid instance -/
-def zeroOnBad : List String :=
-  ["GetDumpStringLineCount", "GetLogStringLineCount", "GetOutputStringLineCount",
-   "GetSelectedOutputStringLineCount"]
-
 def codes : List String := ["OK", "OUTOFMEMORY", "BADVARTYPE", "INVALIDARG", "INVALIDROW", "INVALIDCOL"]
 
 def expectedArgs (w : CW) : List String :=
   w.params.tail.map fun p => if boolSetters.contains w.name then p.2 ++ "!=0" else p.2
 
+/-! ### What IPhreeqc.h documents for an id that is not live — transcribed by hand, function by function
+
+`code`: the doc block lists `@retval IPQ_BADINSTANCE`.  `negative`: the doc block says "a negative value indicates an error
+(see IPQ_RESULT)".  For the remaining functions the documentation is silent about invalid ids; the table then records the
+behaviour as built (`silent…`), so that a change of that behaviour is noticed as well: `silentCode` returns `IPQ_BADINSTANCE`,
+`silentZero` returns 0, `silentEmpty` a static empty string, `silentMsg` the static text "<name>: Invalid instance id.\n",
+`silentVoid` returns nothing (and prints that text).  `noId`: the function has no id parameter. -/
+inductive BadDoc where
+  | code | negative | silentCode | silentZero | silentEmpty | silentMsg | silentVoid | noId
+deriving DecidableEq, Repr
+
+def docSpec : List (String × BadDoc) := [
+  ("AccumulateLine", .silentCode), ("AddError", .negative), ("AddWarning", .negative), ("ClearAccumulatedLines", .code),
+  ("CreateIPhreeqc", .noId), ("DestroyIPhreeqc", .code), ("GetComponent", .silentMsg), ("GetComponentCount", .negative),
+  ("GetCurrentSelectedOutputUserNumber", .silentCode), ("GetDumpFileName", .silentEmpty), ("GetDumpFileOn", .silentCode),
+  ("GetDumpString", .silentEmpty), ("GetDumpStringLine", .silentMsg), ("GetDumpStringLineCount", .silentZero),
+  ("GetDumpStringOn", .silentCode), ("GetErrorFileName", .silentEmpty), ("GetErrorFileOn", .silentCode),
+  ("GetErrorOn", .silentCode), ("GetErrorString", .silentMsg), ("GetErrorStringLine", .silentMsg),
+  ("GetErrorStringLineCount", .silentCode), ("GetErrorStringOn", .silentCode), ("GetLogFileName", .silentEmpty),
+  ("GetLogFileOn", .silentCode), ("GetLogString", .silentEmpty), ("GetLogStringLine", .silentMsg),
+  ("GetLogStringLineCount", .silentZero), ("GetLogStringOn", .silentCode), ("GetNthSelectedOutputUserNumber", .negative),
+  ("GetOutputFileName", .silentEmpty), ("GetOutputFileOn", .silentCode), ("GetOutputString", .silentEmpty),
+  ("GetOutputStringLine", .silentMsg), ("GetOutputStringLineCount", .silentZero), ("GetOutputStringOn", .silentCode),
+  ("GetSelectedOutputColumnCount", .silentCode), ("GetSelectedOutputCount", .silentCode),
+  ("GetSelectedOutputFileName", .silentEmpty), ("GetSelectedOutputFileOn", .silentCode),
+  ("GetSelectedOutputRowCount", .silentCode), ("GetSelectedOutputString", .silentEmpty),
+  ("GetSelectedOutputStringLine", .silentMsg), ("GetSelectedOutputStringLineCount", .silentZero),
+  ("GetSelectedOutputStringOn", .silentCode), ("GetSelectedOutputValue", .code), ("GetSelectedOutputValue2", .code),
+  ("GetVersionString", .noId), ("GetWarningString", .silentMsg), ("GetWarningStringLine", .silentMsg),
+  ("GetWarningStringLineCount", .silentCode), ("LoadDatabase", .silentCode), ("LoadDatabaseString", .silentCode),
+  ("OutputAccumulatedLines", .silentVoid), ("OutputErrorString", .silentVoid), ("OutputWarningString", .silentVoid),
+  ("RunAccumulated", .silentCode), ("RunFile", .silentCode), ("RunString", .silentCode), ("SetBasicCallback", .code),
+  ("SetBasicFortranCallback", .silentCode), ("SetCurrentSelectedOutputUserNumber", .code), ("SetDumpFileName", .code),
+  ("SetDumpFileOn", .code), ("SetDumpStringOn", .code), ("SetErrorFileName", .code), ("SetErrorFileOn", .code),
+  ("SetErrorOn", .code), ("SetErrorStringOn", .code), ("SetLogFileName", .code), ("SetLogFileOn", .code),
+  ("SetLogStringOn", .code), ("SetOutputFileName", .code), ("SetOutputFileOn", .code), ("SetOutputStringOn", .code),
+  ("SetSelectedOutputFileName", .code), ("SetSelectedOutputFileOn", .code), ("SetSelectedOutputStringOn", .code)]
+
+def specOf (name : String) : Option BadDoc := (docSpec.find? (fun p => p.1 == name)).map (·.2)
+
+def invalidMsg (name : String) : String := name ++ ": Invalid instance id.\n"
+
+/-- the invalid-instance branch of a wrapper (as extracted from the source) is what the table says -/
+def matchesDoc (w : CW) : BadDoc → Bool
+  | .code | .negative | .silentCode => w.ret != "const char*" && w.ret != "void" && w.bad == "IPQ_BADINSTANCE"
+  | .silentZero => w.ret == "int" && w.bad == "0"
+  | .silentEmpty => w.ret == "const char*" && w.badIsStatic && w.badText == ""
+  | .silentMsg => w.ret == "const char*" && w.badIsStatic && w.badText == invalidMsg w.name
+  | .silentVoid => w.ret == "void" && w.bad == ""
+  | .noId => w.params == []
+
+/-- the registry helpers as they are written today: `DestroyIPhreeqc` answers `IPQ_BADINSTANCE` unless the id is
+non-negative and live; `GetInstance` searches the map under `map_lock`; `CreateIPhreeqc` returns the new object's index -/
+def expectedHelpers : List (String × String) := [
+  ("CreateIPhreeqc", "int n = IPQ_OUTOFMEMORY; IPhreeqc* IPhreeqcPtr; try { IPhreeqcPtr = new IPhreeqc; n = (int) IPhreeqcPtr->Index; } catch (const std::bad_alloc&) { return IPQ_OUTOFMEMORY; } return n;"),
+  ("DestroyIPhreeqc", "IPQ_RESULT retval = IPQ_BADINSTANCE; if (id >= 0) { if (IPhreeqc *ptr = IPhreeqcLib::GetInstance(id)) { delete ptr; retval = IPQ_OK; } } return retval;"),
+  ("GetInstance", "IPhreeqc* instance = 0; mutex_lock(&map_lock); std::map<size_t, IPhreeqc*>::iterator it = IPhreeqc::Instances.find(size_t(id)); if (it != IPhreeqc::Instances.end()) { instance = (*it).second; } mutex_unlock(&map_lock); return instance;")]
+
 def badOk (w : CW) : Bool :=
-  if w.ret == "const char*" then
-    w.badIsStatic && (w.badText == "" || w.badText == w.name ++ ": Invalid instance id.\n")
-  else if w.ret == "void" then w.bad == ""
-  else if zeroOnBad.contains w.name then w.bad == "0"
-  else w.bad == "IPQ_BADINSTANCE"
+  if w.name == "DestroyIPhreeqc" then
+    specOf w.name == some .code && w.bad == "IPhreeqcLib::DestroyIPhreeqc(id)" && helperBodies == expectedHelpers
+  else match specOf w.name with
+  | some d => matchesDoc w d
+  | none => false
+
+/-- the hand transcription agrees with the mechanical reading of the doc block of the same function -/
+def specMatchesFact (d : BadDoc) (f : DocFact) : Bool :=
+  match d with
+  | .code => f.retvals.contains "IPQ_BADINSTANCE"
+  | .negative => f.negOnError && !f.retvals.contains "IPQ_BADINSTANCE"
+  | .noId => true
+  | _ => !f.negOnError && !f.retvals.contains "IPQ_BADINSTANCE"
+
+/-- functions declared in IPhreeqc.h without a doc block of their own -/
+def undocumented : List String := ["SetBasicFortranCallback"]
+
+def specMatchesHeader : Bool :=
+  docSpec.all fun p =>
+    match docFacts.find? (fun f => f.name == p.1) with
+    | some f => specMatchesFact p.2 f
+    | none => undocumented.contains p.1 && p.2 == .silentCode
+
+/-- table, definitions (IPhreeqcLib.cpp) and declarations (IPhreeqc.h) name exactly the same functions, with the same
+return type and number of parameters -/
+def cComplete : Bool :=
+  cWrappers.map (·.name) == docSpec.map (·.1) &&
+  hDecls == cWrappers.map (fun w => (w.name, w.ret, w.params.length)) &&
+  docFacts.all (fun f => docSpec.any (fun p => p.1 == f.name))
+
+def fComplete : Bool :=
+  (let defs := fWrappers.map (fun w => (w.name, w.ret, w.params.length))
+   fDecls.length == defs.length && fDecls.all (defs.contains ·) && defs.all (fDecls.contains ·)) &&
+  fWrappers.all (fun w => cWrappers.any (fun c => c.name ++ "F" == w.name)) &&
+  -- C functions without a Fortran counterpart: whole-string getters (commented out in the glue), the C-only variants
+  (cWrappers.filter (fun c => !fWrappers.any (fun w => c.name ++ "F" == w.name))).map (·.name) ==
+    ["GetDumpString", "GetErrorString", "GetLogString", "GetOutputString", "GetSelectedOutputString",
+     "GetSelectedOutputValue2", "GetWarningString", "SetBasicCallback"]
 
 def transOk (w : CW) : Bool :=
   w.trans.all fun p => codes.any fun c => p.1 == "VR_" ++ c && p.2 == "IPQ_" ++ c
@@ -41,7 +127,11 @@ def transOk (w : CW) : Bool :=
 /-- a C wrapper has the documented forwarding shape -/
 def wfC (w : CW) : Bool :=
   if w.name == "DestroyIPhreeqc" then
-    w.calls == [] && w.lookups == [("DestroyIPhreeqc", "id")] && w.params == [("int", "id")]
+    w.calls == [] && w.lookups == [("DestroyIPhreeqc", "id")] && w.params == [("int", "id")] && badOk w
+  else if w.name == "CreateIPhreeqc" then
+    w.calls == [] && w.lookups == [("CreateIPhreeqc", "")] && badOk w
+  else if w.name == "GetVersionString" then
+    w.calls == [] && w.lookups == [("static GetVersionString", "")] && badOk w
   else
     w.params.head? == some ("int", "id") && w.calls == [(w.name, expectedArgs w)] &&
     w.lookups == [("GetInstance", "id")] && badOk w && transOk w
@@ -59,7 +149,7 @@ def stringF : List String :=
    "GetSelectedOutputFileNameF", "GetSelectedOutputStringLineF", "GetVersionStringF", "GetWarningStringLineF"]
 
 def derefArg (fname : String) (p : String × String) : String :=
-  if p.1 == "char*" then p.2
+  if p.1 == "char*" || p.1 == "fnptr" then p.2
   else if p.2 == "n" && shiftedF.contains fname then "(*n)-1"
   else "*" ++ p.2
 
@@ -79,12 +169,19 @@ def wfF (w : FW) : Bool :=
     | [(callee, args)] =>
       callee ++ "F" == w.name && args == (inParams w).map (derefArg w.name) && !w.adjcol &&
       (w.rowsMinusHeading == (w.name == "GetSelectedOutputRowCountF")) &&
+      (w.rowsGuard == (if w.name == "GetSelectedOutputRowCountF" then "rows > 0" else "")) &&
       (if stringF.contains w.name then
          match w.params.drop (w.params.length - 2) with
          | [buf, len] => w.pads == [[buf.2, "::" ++ callee ++ "(" ++ join args ++ ")", len.2]]
          | _ => false
        else w.pads == [])
     | _ => false
+
+/-- the documentation's "N is one-based for the Fortran interface" notes (and zero-based `n` parameters) are exactly the
+functions whose Fortran glue shifts the index -/
+def shiftsMatchDoc : Bool :=
+  docFacts.all (fun f => f.oneBasedF == shiftedF.contains (f.name ++ "F") && f.oneBasedF == f.zeroBasedN) &&
+  shiftedF.all (fun n => docFacts.any (fun f => f.name ++ "F" == n))
 
 /-- every `bind(C)` target of the Fortran module exists in the C++ glue with the same number of arguments -/
 def f90Ok : Bool :=
